@@ -33,6 +33,9 @@ var c09FmtArgs = []c09Obj{
 	c09Self("#(1 2)", "vector", "#(1 2)"),
 }
 
+// second arguments of the quick tier's two-argument lists
+var c09FmtSecond = map[string]bool{"nil": true, "1": true, "-1": true, "1e15": true, "\"a\"": true, "sym": true, "(1 2 3)": true}
+
 // directive bodies: what follows "~<params><modifiers>"; most are the directive character alone,
 // block directives come with bodies (terminated and unterminated)
 var c09FmtBodies = []struct {
@@ -66,7 +69,7 @@ var c09FmtMods = []string{"", ":", "@", ":@", "@:", "::", "@@"}
 
 // parameter shapes (class label, text)
 var c09FmtParams = [][2]string{
-	{"-", ""}, {"n", "5"}, {"0", "0"}, {"neg", "-1"}, {"v", "v"}, {"#", "#"}, {"'c", "'x"}, {"n,n", "5,3"}, {"n,0", "5,0"}, {"0,0", "0,0"}, {",,'c", ",,'*"}, {"v,v", "v,v"},
+	{"-", ""}, {"n", "5"}, {"0", "0"}, {"neg", "-1"}, {"v", "v"}, {"#", "#"}, {"'c", "'x"}, {"n,n", "5,3"}, {"n,0", "5,0"}, {"0,0", "0,0"}, {",,,0", ",,,0"}, {",,,n", ",,,2"}, {",,'c", ",,'*"}, {"v,v", "v,v"},
 	{"n*8", "1,2,3,4,5,6,7,8"}, {"big", "100000"}, {"overflow", "99999999999999999999"}, {",", ","}, {"'", "'"}, {"n,", "5,"}, {"-", "-"}, {"+n", "+5"}, {"V", "V"},
 }
 
@@ -197,6 +200,9 @@ func c09FmtTable(thorough bool) []c09FmtCase {
 			for b := 0; b < n; b++ {
 				if hugeArg(a) || (in.pclass == "v,v" && hugeArg(b)) {
 					continue
+				}
+				if !thorough && !c09FmtSecond[c09FmtArgs[b].Name] {
+					continue // quick tier: second argument from a reduced pool
 				}
 				out = append(out, c09FmtCase{segs: lab, ctl: in.text, args: []int{a, b}, table: true})
 			}
